@@ -16,6 +16,7 @@
 package gocql
 
 import (
+	"context"
 	"encoding/hex"
 	"fmt"
 	"regexp"
@@ -58,6 +59,7 @@ type vxC14Op struct {
 	Batch   bool         `json:"batch"`
 	Logged  bool         `json:"logged"`
 	Entries []vxC14Entry `json:"entries"` // exactly one entry for a query
+	Cancel  bool         `json:"cancel,omitempty"` // rounds with held PREPAREs: this caller's context is cancelled while they are held
 }
 
 type vxC14Round struct {
@@ -699,7 +701,40 @@ func vxC14TI(t *cqlspec.Type) TypeInfo {
 	return NativeType{typ: TypeVarchar}
 }
 
-func (w *vxC14World) runOp(s *Session, op *vxC14Op, opID int, res *vxC14Res) {
+// anyGaveUp: did any caller cancel its context in that round or an earlier one?
+func (c *vxC14Case) anyGaveUp(round int) bool {
+	for ri := 0; ri <= round && ri < len(c.Rounds); ri++ {
+		for _, op := range c.Rounds[ri].Ops {
+			if c.Rounds[ri].Hold && op.Cancel {
+				return true
+			}
+		}
+	}
+	return false
+}
+
+// gaveUp: did a caller using stmt cancel its context in that round or an earlier one? (The PREPARE such a
+// caller started is on its own from then on: it may reach the node, and be answered, rounds later.)
+func (c *vxC14Case) gaveUp(round, stmt int) bool {
+	for ri := 0; ri <= round && ri < len(c.Rounds); ri++ {
+		if !c.Rounds[ri].Hold {
+			continue
+		}
+		for _, op := range c.Rounds[ri].Ops {
+			if !op.Cancel {
+				continue
+			}
+			for _, e := range op.Entries {
+				if !e.Plain && e.Stmt == stmt {
+					return true
+				}
+			}
+		}
+	}
+	return false
+}
+
+func (w *vxC14World) runOp(ctx context.Context, s *Session, op *vxC14Op, opID int, res *vxC14Res) {
 	defer func() {
 		if r := recover(); r != nil {
 			res.panic = fmt.Sprint(r)
@@ -722,7 +757,7 @@ func (w *vxC14World) runOp(s *Session, op *vxC14Op, opID int, res *vxC14Res) {
 				b.Query(c.text(e.Stmt), c.values(e.Stmt, opID, e.NVals)...)
 			}
 		}
-		if err := s.ExecuteBatch(b); err != nil {
+		if err := s.ExecuteBatch(b.WithContext(ctx)); err != nil {
 			res.err = err.Error()
 		}
 		return
@@ -734,6 +769,7 @@ func (w *vxC14World) runOp(s *Session, op *vxC14Op, opID int, res *vxC14Res) {
 	} else {
 		q = s.Query(c.text(e.Stmt), c.values(e.Stmt, opID, e.NVals)...)
 	}
+	q = q.WithContext(ctx)
 	st := &c.Stmts[e.Stmt]
 	if st.Kind != "select" {
 		if err := q.Exec(); err != nil {
@@ -886,6 +922,7 @@ func vxC14Run(c *vxC14Case, k *vstats.Case) error {
 		w.mu.Unlock()
 		var started int64
 		var wg sync.WaitGroup
+		var cancels []context.CancelFunc
 		for oi := range r.Ops {
 			id := next
 			next++
@@ -893,20 +930,42 @@ func vxC14Run(c *vxC14Case, k *vstats.Case) error {
 			ops[id] = ref
 			order = append(order, id)
 			wg.Add(1)
+			ctx := context.Background()
+			if r.Hold && ref.op.Cancel {
+				var cancel context.CancelFunc
+				ctx, cancel = context.WithCancel(ctx)
+				cancels = append(cancels, cancel)
+			}
 			go func() {
 				defer wg.Done()
 				atomic.AddInt64(&started, 1)
-				w.runOp(s, ref.op, id, ref.res)
+				w.runOp(ctx, s, ref.op, id, ref.res)
 			}()
 		}
 		if r.Hold {
-			go func(n int64, us int) {
+			go func(n int64, us int, cancels []context.CancelFunc) {
 				for atomic.LoadInt64(&started) < n {
 					time.Sleep(20 * time.Microsecond)
 				}
 				time.Sleep(time.Duration(us) * time.Microsecond)
+				if len(cancels) > 0 {
+					// some callers give up while the PREPAREs are unanswered: wait (briefly) until one is held
+					for i := 0; i < 100; i++ {
+						w.mu.Lock()
+						nh := len(w.held)
+						w.mu.Unlock()
+						if nh > 0 {
+							break
+						}
+						time.Sleep(20 * time.Microsecond)
+					}
+					for _, cancel := range cancels {
+						cancel()
+					}
+					time.Sleep(time.Duration(us+100) * time.Microsecond)
+				}
 				w.release()
-			}(int64(len(r.Ops)), r.HoldUS)
+			}(int64(len(r.Ops)), r.HoldUS, cancels)
 		}
 		joined := make(chan struct{})
 		go func() { wg.Wait(); close(joined) }()
@@ -922,7 +981,7 @@ func vxC14Run(c *vxC14Case, k *vstats.Case) error {
 		}
 		sample()
 		w.mu.Lock()
-		closedNow := w.closeRounds[ri]
+		closedNow := w.closeRounds[ri] || (len(w.closeRounds) > 0 && c.anyGaveUp(ri))
 		w.mu.Unlock()
 		if closedNow {
 			// let the pools replace the dropped connections before the next round starts, so that a
@@ -1089,7 +1148,9 @@ func vxC14Run(c *vxC14Case, k *vstats.Case) error {
 				if !uses {
 					return fmt.Errorf("%s failed with the refusal of a PREPARE of tok%d, a statement it does not use: %s", what, p.stmt, res.err)
 				}
-				if p.round != ref.round {
+				if p.round != ref.round && !(p.round < ref.round && c.gaveUp(p.round, p.stmt)) {
+					// (a caller that gave up in the PREPARE's round may have left it unanswered beyond the round's
+					// end: who joins it later shares its answer - that is no remembered failure)
 					return fmt.Errorf("%s failed with the refusal of a PREPARE answered in round %d - a failed PREPARE was remembered: %s", what, p.round, res.err)
 				}
 				explained = true
@@ -1103,6 +1164,20 @@ func vxC14Run(c *vxC14Case, k *vstats.Case) error {
 				return fmt.Errorf("%s binds a wrong number of values and was sent to a node %d times", what, len(ex))
 			}
 			k.Class("outcome=arity-error")
+			continue
+		}
+		if res.err != "" && !explained && c.Rounds[ref.round].Hold && ref.op.Cancel && strings.Contains(res.err, context.Canceled.Error()) {
+			// this caller gave up itself (whether or not a node had executed it by then)
+			k.Class("outcome=cancelled-by-its-caller")
+			continue
+		}
+		if res.err != "" && !explained && strings.Contains(res.err, context.Canceled.Error()) && !w.closeRounds[ref.round] && !ref.op.Cancel {
+			return fmt.Errorf("%s never cancelled its context and no connection was dropped in its round, yet it failed with %q (another caller's cancellation was reported to it)", what, res.err)
+		}
+		if res.err != "" && !explained && ref.round > 0 && w.closeRounds[ref.round-1] && c.anyGaveUp(ref.round-1) && vxC14ConnErr(res.err) {
+			// the PREPARE of a caller that gave up reached its node as the previous round ended and the node dropped
+			// the connection on it: this round began on a connection already going down
+			k.Class("outcome=connection-lost-as-the-round-began")
 			continue
 		}
 		if res.err != "" && !explained && w.closeRounds[ref.round] && vxC14ConnErr(res.err) {
@@ -1157,6 +1232,9 @@ func vxC14Run(c *vxC14Case, k *vstats.Case) error {
 		if p.fail && !p.closed {
 			if reported[p.marker] == 0 && w.closeRounds[p.round] {
 				continue // the refusal may have been lost with a connection dropped in the same round
+			}
+			if reported[p.marker] == 0 && c.gaveUp(p.round, p.stmt) {
+				continue // the only caller that waited for it may have given up before the answer
 			}
 			if reported[p.marker] == 0 {
 				return fmt.Errorf("node %d refused PREPARE #%d (tok%d, round %d) but no caller got that error", p.node, p.nth, p.stmt, p.round)
@@ -1261,6 +1339,9 @@ func vxC14Draw(t *rapid.T) *vxC14Case {
 				e := vxC14Entry{Stmt: pick(), Bind: rapid.Bool().Draw(t, "bind")}
 				e.NVals = nvals(e.Stmt, true)
 				op.Entries = []vxC14Entry{e}
+			}
+			if rd.Hold && k >= 2 && rapid.IntRange(0, 3).Draw(t, "cancel") == 0 {
+				op.Cancel = true
 			}
 			rd.Ops = append(rd.Ops, op)
 		}
